@@ -112,6 +112,19 @@ theorem numeric_entry_double_counterexample :
     Spec.Float.litValue [49, 32, 101, 50] = some (false, 100, 1) ∧ Spec.Float.litValue [49] = some (false, 1, 1) := by
   decide +kernel
 
+/-- well-formedness of the WHOLE list cannot be weakened to "entry i was reported OK" (`numeric_ok_implies_prefix_wf`): for
+the content "0x1" (not a list) entry 0 is reported OK with the token "0" - the walker does not look beyond entry i -, the
+integer variant delivers 0, but strtod is handed "0x1", a hexadecimal floating constant (value 1).  So the hexadecimal
+side condition of C04, unobservable for parameters (the suffix is always rejected), is observable through
+SCPI_ExprNumericListEntryDouble on malformed content; asking for entry 1 of the same content gives ERROR. -/
+theorem numeric_entry_double_malformed_hexfloat :
+    parseNumList [48, 120, 49] = none ∧ (numericListEntry [48, 120, 49] 0).res = .ok ∧
+    tokText [48, 120, 49] (numericListEntry [48, 120, 49] 0).from_ = [48] ∧
+    tokInt32 [48, 120, 49] (numericListEntry [48, 120, 49] 0).from_ = 0 ∧
+    tokDoubleText [48, 120, 49] (numericListEntry [48, 120, 49] 0).from_ = [48, 120, 49] ∧
+    (numericListEntry [48, 120, 49] 1).res = .error := by
+  decide +kernel
+
 /-- every byte of a well-formed numeric list is a sign, a digit, the point, e / E, blank / tab, ',' or ':' - in particular
 never 'x' / 'X', so strtod cannot take a number of the list for a hexadecimal floating constant -/
 theorem numeric_list_bytes (body : Bytes) (l : List NumEntry) (h : parseNumList body = some l) :
